@@ -14,3 +14,17 @@ package file
 // (stated as regular-language emptiness, which the solvers decide).
 //@ lemma[C13.single-element] forall(s, string, plainFileName(s) ==> !in_re(s, "[/\\\\\\x00]") && s != "" && s != "." && s != "..")
 //@ lemma[C09.single-element] forall(s, string, plainFileName(s) ==> !in_re(s, "[/\\\\\\x00]") && s != "" && s != "." && s != "..")
+
+// ---- C14: a destination path is only ever bound, by one atomic rename, to a closed file holding the complete content ----
+
+//@ func WriteFile
+//@ props C14 C15
+//@ os-calls-only[C14.fs-steps] os.CreateTemp os.(*File).Write os.(*File).Close os.(*File).Name os.Rename os.Remove
+//@ at call os.CreateTemp: assert[C14.temp-name] arg0 == tempDir && arg1 == "notation-*"
+//@ at call os.Rename: assert[C14.complete-before-rename] arg0 == fname(tempFile) && arg1 == path && fclosed(tempFile) && fcontent(tempFile) == string(content)
+//@ at call os.Remove: assert[C14.only-temp-removed] arg0 == fname(tempFile)
+
+//@ func WriteFile$1
+//@ props C14
+//@ os-calls-only[C14.fs-steps] os.(*File).Close os.(*File).Name os.Remove
+//@ at call os.Remove: assert[C14.only-temp-removed] arg0 == fname(tempFile)
